@@ -584,7 +584,7 @@ def plan(tier, seed):
                     if a != b:
                         seqs.append({'srv': srv, 'au': au,
                                      'kinds': [a, b, a, b]})
-            for _ in range(20 if tier == 'thorough' else 3):
+            for _ in range(400 if tier == 'thorough' else 3):
                 seqs.append({'srv': srv, 'au': au, 'kinds': [
                     rng.choice(kinds) for _ in range(rng.randint(3, 6))]})
     shards.append({'cells': [], 'overlaps': over, 'openseqs': seqs,
